@@ -10,11 +10,12 @@ import concurrent.futures as cf
 import json
 import os
 import random
+import re
 import tempfile
 
 from harness import par, tlc, valgamma
 
-UNMODELLED = ["ExecutableDefinitionsChecker"]
+UNMODELLED = []
 # An error is attributable to a specification rule when one of these visitor classes, run alone, reports.  "Fragment spread type
 # existence" (5.5.1.2) is reported by FragmentsOnCompositeTypesChecker: type conditions are not visited as nodes, so
 # KnownTypeNamesChecker never sees them (pinned by tests/test_validation/rules/test_known_type_names.py).
@@ -94,7 +95,11 @@ def schema():
     return _SCHEMA
 
 
-def real_verdicts(text, rules):
+def has_typedef(doc):
+    return any(d["k"] == "typedef" for d in doc["defs"])
+
+
+def real_verdicts(text, rules, ts=False):
     """-> (parse ok, {rule: fired | 'raises:Exc'}, full: n errors | 'raises:Exc')"""
     from py_gql.lang import parse
     from py_gql.validation import default_validator, validate_ast
@@ -104,7 +109,7 @@ def real_verdicts(text, rules):
     classes = dict(vars(R))
     classes["OverlappingFieldsCanBeMergedChecker"] = OverlappingFieldsCanBeMergedChecker
     classes["ValuesOfCorrectTypeChecker"] = ValuesOfCorrectTypeChecker
-    doc = parse(text)
+    doc = parse(text, allow_type_system=ts)
     per = {}
     for r in rules:
         try:
@@ -128,7 +133,7 @@ def _worker(cases):
         text = valgamma.render(doc)
         wit = {"query": text, "label": label}
         try:
-            per, full = real_verdicts(text, list(v.keys()) + UNMODELLED)
+            per, full = real_verdicts(text, list(v.keys()) + UNMODELLED, has_typedef(doc))
         except Exception as e:
             out.setdefault("validate/harness/%s" % type(e).__name__, ["cannot run", dict(wit, error=repr(e))])
             continue
@@ -173,11 +178,11 @@ def _meta_worker(cases):
         ta = valgamma.render(doc)
         tb = valgamma.render(var) if kind != "respell" else valgamma.respell(ta, random.Random(len(ta) * 7919 + n))
         try:
-            pa, fa = real_verdicts(ta, rules)
+            pa, fa = real_verdicts(ta, rules, has_typedef(doc))
         except Exception as e:
             continue  # reported by the main stage
         try:
-            pb, fb = real_verdicts(tb, rules)
+            pb, fb = real_verdicts(tb, rules, has_typedef(doc))
         except Exception as e:
             out.setdefault("validate/metamorphic/%s/variant-does-not-parse" % kind, ["the transformed document cannot be processed although the original can", {"a": ta, "b": tb, "error": repr(e)}])
             continue
@@ -246,7 +251,7 @@ def run(chk, props=("C06",)):
             chk.diverge(k, wit, what)
     d0 = cases[len(cases) // 2]
     chk.sample({"query": valgamma.render(d0[0]), "label": d0[2], "spec_verdict": d0[1]})
-    chk.assumptions += ["25 of the 26 rules are modelled (ExecutableDefinitionsChecker is not: the documents are parsed without allow_type_system)",
+    chk.assumptions += ["all 26 rule classes are modelled (documents holding a type-system definition are parsed with allow_type_system)",
                         "attribution: a rule is 'reported' when its own visitor class (or a class listed for it in ATTRIBUTION) run alone reports at least one error; demanded only of documents breaking exactly one rule, as the property states; for several broken rules at least one of them must report"]
     return chk.finish(rule="random documents + 27 labelled injections into all-valid bases + permutation / renaming variants, judged by TLC")
 
